@@ -253,12 +253,12 @@ def r5_r6_impls(chk):
             exp_ins = ["self", f"other:&mut{cp}"]
             exp_out = "()" if f else ""
         if f:
-            exp_out = f"::core::result::Result<{exp_out},__Err>"
+            exp_out = f"::core::result::Result<{exp_out},__Err<__ERRG>>"
         ok_sig = fn["name"] == exp_m and ins == exp_ins and out == exp_out
         chk.expect("R6", key + "/sig", ok_sig, EXPAND, fi.line, "method name/signature differs from the trait's", expected=[exp_m, exp_ins, exp_out], found=[fn["name"], ins, out])
         if f:
             et = [norm(x["ty"]) for x in ats if x["name"] == "Error"]
-            chk.expect("R6", key + "/Error", et == ["__Err"], EXPAND, fi.line, "`type Error` is not the declared error type", expected=["__Err"], found=et)
+            chk.expect("R6", key + "/Error", et == ["__Err<__ERRG>"], EXPAND, fi.line, "`type Error` is not the declared error type (path with its generic arguments)", expected=["__Err<__ERRG>"], found=et)
         # body wrapper: fallible From/Into use the Ok-wrapping block, others the plain one
         roles = [r for r, _p in c["roles"]]
         want = "init_ok" if (f and d in ("From", "Into")) else "init"
